@@ -343,7 +343,7 @@ func (f *Func) CallArgs(c ssa.CallInstruction) []*Term {
 	for i, v := range vs {
 		out[i] = f.Term(v)
 	}
-	return out
+	return spliceVariadic(cc, out)
 }
 
 // CallsTo returns the call instructions whose canonical callee name matches one of names
